@@ -56,6 +56,21 @@ claimed = {
    note="go statements ignored and channels opaque in the constructors; codec behaviour behind the frame.Codec/RawCodec interfaces assumed (non-nil results); zerolog without effect; server read path not covered.",
    technique="contract-based deductive verification of the sequential mechanisms (postconditions, object invariant as type invariant), concurrency abstracted",
    design="DESIGN.md §4 C15"),
+ "C11": dict(
+   text="Proof, per codec, by a lemma function that runs the real Encode and then the real Decode on the result: for bigint/counter, int, smallint and tinyint and each of the ten Go integer types, for float and double and both float types (NaN excluded), for boolean with bool and every integer type, and for varint with *big.Int, decoding what was encoded into the same representation yields the same value with no error - for all values of those types, not a sample. The varint lemma failed on the original tree (Encode wrote the bare magnitude: -1 -> 01, 128 -> 80) and is fixed.",
+   note="PARTIAL: containers as Go values go through package reflect and are not applicable to this technique; decimal, duration, date, time, timestamp, uuid, inet, blob, varchar and mixed representations are not covered. big.Int values are modelled as 256-bit integers; the varint byte format is assumed from writeBigInt/readBigInt and checked only by a bounded execution (141807 cases).",
+   technique="contract-based deductive verification: round-trip lemma functions over callee contracts (bit-vector/FP SMT), forallT expansion over Go types; bounded stand-in for varint bytes",
+   design="DESIGN.md §4 C11"),
+ "C12": dict(
+   text="Proof that the fixed-width scalars are written and read as the specification prescribes: bigint/int/smallint/tinyint as big-endian two's complement of 8/4/2/1 bytes, float/double as the big-endian IEEE 754 bit patterns, boolean as one byte, every other length refused, zero length read as NULL; and that the varint codec emits exactly the minimal two's-complement encoding produced by writeBigInt (this obligation failed on the original tree and is fixed).",
+   note="BOUNDED, not proved: that writeBigInt/readBigInt implement minimal two's complement (assumed by the proof; exhaustive execution against an independent reference on [-70000,70000] and around +-2^k, k<=300). NOT covered: decimal, duration, date offset, inet, uuid, collection/tuple/UDT framing.",
+   technique="contract-based deductive verification: byte-level postconditions on slices; bounded execution stand-in for arbitrary-precision bytes",
+   design="DESIGN.md §4 C12"),
+ "C14": dict(
+   text="Proof for the integer, float and boolean codecs: encoding an untyped nil yields a NULL that decodes with wasNull set, no error and the destination zeroed, for every integer/float/bool destination type; every fixed-width reader treats the empty value as NULL with a zero result.",
+   note="PARTIAL: typed nil sources, NULL elements in containers and their refusal in protocol v2 run through package reflect (not applicable to this technique); the remaining scalar codecs are not covered.",
+   technique="contract-based deductive verification: lemma functions and postconditions, forallT expansion",
+   design="DESIGN.md §4 C14"),
 }
 
 not_applicable = {
